@@ -218,6 +218,18 @@ theorem sample_wellNamed : WellNamed sampleFile := by
 
 example : templateNames sampleFile.body = [b!"a.b.t"] := rfl
 
+/-- the generator succeeds on the sample (kernel evaluation of the model) … -/
+example : ∃ ps, genPieces id sampleFile {} = .ok ps := ⟨_, rfl⟩
+
+/-- … so the theorems speak about something: its pieces contain exactly the one header, -/
+example : ∀ ps, genPieces id sampleFile {} = .ok ps → hdrs ps = [(false, b!"a.b.t")] :=
+  fun ps h => one_function_per_template id sampleFile {} sample_wellNamed ps h
+
+/-- … and its text the definition line of `a.b.t`. -/
+example : ∀ out, gen id sampleFile {} = .ok out →
+    (b!"a.b.t" ++ b!" = function(opt_data, opt_sb, opt_ijData) {") <:+: out :=
+  fun out h => definition_lines_present id sampleFile {} sample_wellNamed rfl out h b!"a.b.t" (by decide)
+
 /-- the hypothesis is needed: a key that begins with a digit is spliced as it is (the shape the
     lexer accepted before 52e7a88, and still accepts for a key that begins with a NON-ASCII digit) -/
 example : ¬ IsIdent b!"1z" := by
